@@ -904,7 +904,7 @@ func TestC09(t *testing.T) {
 		if pi < len(dir) {
 			nFault = hx.N(8, 20)
 		}
-		e.faults(t, out, rng, p, pctx, before, refCache, nFault)
+		e.faults(t, out, rng, p, pctx, before, refCache, nFault, fmt.Sprintf("%s %d %d %s", opw, ampleGL, intrinsic, text))
 		for _, g := range gl {
 			real := e.run(pctx, p, g, false)
 			obs := real.status
@@ -1056,7 +1056,7 @@ func (e *env) reference(t *testing.T, p *program, real, trc *runObs, refCache ma
 // faults: the program at ample gas with a Go panic injected at random store accesses.  Either the panic reaches the
 // caller (the transaction is dropped as a whole) or — if something recovered it — the transaction must still be
 // all-or-nothing: failed => no Cosmos-side change, succeeded => exactly the effects of the kept frames.
-func (e *env) faults(t *testing.T, out *hx.Out, rng *rand.Rand, p *program, pctx sdk.Context, before map[string]string, refCache map[string]*runObs, n int) {
+func (e *env) faults(t *testing.T, out *hx.Out, rng *rand.Rand, p *program, pctx sdk.Context, before map[string]string, refCache map[string]*runObs, n int, opLine string) {
 	probe := &faultMeter{at: -1}
 	if o := e.runWith(pctx, p, ampleGL, false, probe); o.status == "panic" || probe.n == 0 {
 		return
@@ -1074,7 +1074,8 @@ func (e *env) faults(t *testing.T, out *hx.Out, rng *rand.Rand, p *program, pctx
 			out.Count("fault:recovered-inside:" + real.status)
 			if real.status != "ok" {
 				if ch := hx.DiffDump(before, real.dump); len(ch) > 0 {
-					out.Violate(fmt.Sprintf("a panic injected at store access %d was recovered inside the transaction, which then failed (%s) and left Cosmos-side effects in %v", at, real.status, ch))
+					out.ViolateWith(fmt.Sprintf("a panic injected at store access %d was recovered inside the transaction, which then failed (%s) and left Cosmos-side effects in %v", at, real.status, ch),
+						[]string{"reset", opLine, fmt.Sprintf("# fault: Go panic at the %d-th store access of this transaction (VERIF_SEED reproduces it)", at)})
 				}
 				continue
 			}
@@ -1083,7 +1084,8 @@ func (e *env) faults(t *testing.T, out *hx.Out, rng *rand.Rand, p *program, pctx
 				continue
 			}
 			if refs := e.reference(t, p, real, trc, refCache); refs != "same" {
-				out.Violate(fmt.Sprintf("a panic injected at store access %d was recovered inside the transaction, which succeeded with a Cosmos state that differs from the effects of exactly the kept precompile calls (%s)", at, refs))
+				out.ViolateWith(fmt.Sprintf("a panic injected at store access %d was recovered inside the transaction, which succeeded with a Cosmos state that differs from the effects of exactly the kept precompile calls (%s)", at, refs),
+					[]string{"reset", opLine, fmt.Sprintf("# fault: Go panic at the %d-th store access of this transaction (VERIF_SEED reproduces it)", at)})
 			}
 		}
 	}
